@@ -673,7 +673,7 @@ Definition do_join (h : hub) (c sid : N) (s : session) (rn rs : N) (rep : roomre
       | Some _ =>
           match rep with
           | RepErr code => let '(h2, outs) := send_session h1 sid (SError code) in (h2, req :: outs1 ++ outs)
-          | RepOk perms su => let '(h2, outs2) := join_room h1 c sid k rsv perms su in (h2, req :: outs1 ++ outs2)
+          | RepOk perms su => let '(h2, outs2) := join_room h1 c sid k rsv perms su in (h2, req :: outs1 ++ outs2)   (* revocation: see step *)
           end
       end.
 
@@ -1197,7 +1197,17 @@ Definition step (h : hub) (o : op) : hub * list out :=
                    | None => do_hello (set_conns h (aset h.(h_conns) c (mkconn cn.(c_addr) None (match hl with HResume _ => cn.(c_expect) | _ => false end)))) c cn hl
                    end
       end
-  | OJoin c rn rs rep => with_session h c (fun cn sid s => do_join h c sid s rn rs rep)
+  | OJoin c rn rs rep =>
+      with_session h c (fun cn sid s =>
+        let '(h1, o1) := do_join h c sid s rn rs rep in
+        (* permissions of the join response: publishers created before are checked against them *)
+        match rep, get_sess h1 sid with
+        | RepOk (Some _) _, Some s1 =>
+            if negb (N.eqb rn 0) && negb (is_internal s.(s_kind)) && opt_pair_eqb s1.(s_room) (Some (s.(s_backend), rn))
+               && negb (opt_pair_eqb s.(s_room) (Some (s.(s_backend), rn)))
+            then let '(h2, o2) := revoke h1 sid in (h2, o1 ++ o2) else (h1, o1)
+        | _, _ => (h1, o1)
+        end)
   | OMsg c to tag => with_session h c (fun cn sid s => do_message h sid s 0 to tag true)
   | OCtl c to tag => with_session h c (fun cn sid s => if allowed_control s then do_message h sid s 1 to tag true else (h, []))
   | OBye c =>
